@@ -617,7 +617,11 @@ func runInitFrame(fr *frame) {
 						if r := recover(); r != nil {
 							switch r := r.(type) {
 							case pathAbort:
-								panic(r)
+								if r.kind != "bound" {
+									panic(r)
+								}
+								fr.env[c] = poison{"initialiser exceeds engine bounds: " + r.msg}
+								fr.i.poisoned = append(fr.i.poisoned, c.String()+": "+r.msg)
 							case engineFault:
 								fr.env[c] = poison{r.msg}
 								fr.i.poisoned = append(fr.i.poisoned, c.String()+": "+r.msg)
